@@ -143,6 +143,13 @@ def configs(fp, cls):
                 kw["additional_starts"] = ["a"]
                 kw["additional_ends"] = ["b"]
         mk("constraints", cons)
+
+        def cons_repeated(kw):
+            # a constraint that names an edge twice (a walk through a cycle written as an edge list; a duplicated entry)
+            cons(kw)
+            if ck in sig:
+                kw[ck] = [[("a", "b"), ("b", "a"), ("a", "b")]] if K.is_cyc(cls) else [[("s", "a"), ("s", "a"), ("a", "t")]]
+        mk("constraints_repeated_edge", cons_repeated)
         if "error_scaling" in sig:
             mk("scaling", lambda kw: (opts(kw), kw.update(error_scaling={("a", "b"): 0.5})))
             # a factor 0 makes the class ignore the edge: the ignore list (the caller's, or the shared default) is in play
